@@ -63,13 +63,16 @@ var quickPkgs = []string{
 var (
 	gqual = func(p *gotypes.Package) string { return p.Path() }
 	fqual = func(p *types.Package) string { return p.Path() }
-	reWB  = regexp.MustCompile(`\b(byte|rune|any)\b`)
+	reWB  = regexp.MustCompile(`(untyped )?\b(byte|rune|any)\b`)
 )
 
 // norm: documented normalisations of go1.23's go/types printer versus the (go1.13 era) fork:
 // `any` is printed for interface{}, the aliases byte/rune keep their name (the converter maps basic types by kind)
 func norm(s string) string {
 	return reWB.ReplaceAllStringFunc(s, func(w string) string {
+		if strings.HasPrefix(w, "untyped ") {
+			return w
+		}
 		switch w {
 		case "byte":
 			return "uint8"
@@ -183,7 +186,7 @@ func (h *H) fail(what, pkg, obj string, got, want interface{}) {
 }
 
 // method sets (explicit methods of a named type, or all methods of an interface) as sorted "name sig" lines
-func gmethods(t gotypes.Type) ([]string, bool) {
+func gmethods(t gotypes.Type, n intern) ([]string, bool) {
 	var out []string
 	gen := false
 	add := func(m *gotypes.Func) {
@@ -201,7 +204,7 @@ func gmethods(t gotypes.Type) ([]string, bool) {
 		if !ast.IsExported(id) && m.Pkg() != nil {
 			id = m.Pkg().Path() + "·" + id
 		}
-		out = append(out, recv+id+" "+norm(gotypes.TypeString(sig, gqual)))
+		out = append(out, recv+id+" "+encGSig(sig, n, 0, false))
 	}
 	if it, ok := t.Underlying().(*gotypes.Interface); ok {
 		for i := 0; i < it.NumMethods(); i++ {
@@ -215,7 +218,7 @@ func gmethods(t gotypes.Type) ([]string, bool) {
 	sort.Strings(out)
 	return out, gen
 }
-func fmethods(t types.Type) []string {
+func fmethods(t types.Type, n intern) []string {
 	var out []string
 	add := func(m *types.Func, iface bool) {
 		sig := m.Type().(*types.Signature)
@@ -229,7 +232,7 @@ func fmethods(t types.Type) []string {
 		if !ast.IsExported(id) && m.Pkg() != nil {
 			id = m.Pkg().Path() + "·" + id
 		}
-		out = append(out, recv+id+" "+types.TypeString(sig, fqual))
+		out = append(out, recv+id+" "+encFSig(sig, n, 0, false))
 	}
 	if it, ok := t.Underlying().(*types.Interface); ok {
 		for i := 0; i < it.NumMethods(); i++ {
@@ -337,9 +340,17 @@ func (h *H) comparePackage(gp *gotypes.Package, p *types.Package) {
 			h.fail("object name/package/exported", path, name, fmt.Sprint(fo.Name(), " ", fo.Pkg()), path)
 		}
 		// printed form of the object's type
+		// (go1.23's printer omits parameter names inside nested func types and keeps the source order of embedded
+		// interfaces, the fork prints the names and sorts: when the texts differ the name-free structural
+		// encodings decide)
 		gstr, fstr := norm(gotypes.TypeString(o.Type(), gqual)), types.TypeString(fo.Type(), fqual)
 		if gstr != fstr {
-			h.fail("printed type", path, name, fstr, gstr)
+			n := intern{}
+			if a, b := encG(o.Type(), n, 0), encF(fo.Type(), n, 0); a != b {
+				h.fail("printed type", path, name, fstr, gstr)
+			} else {
+				h.stats["printed_form_differs_only_in_param_names_or_embedded_order"]++
+			}
 		}
 		switch o := o.(type) {
 		case *gotypes.Const:
@@ -357,15 +368,16 @@ func (h *H) comparePackage(gp *gotypes.Package, p *types.Package) {
 				break
 			}
 			gu, fu := norm(gotypes.TypeString(gt.Underlying(), gqual)), types.TypeString(ft.Underlying(), fqual)
-			if gu != fu {
+			n := intern{}
+			if a, b := encG(gt.Underlying(), n, 0), encF(ft.Underlying(), n, 0); a != b {
 				h.fail("underlying structure", path, name, fu, gu)
 			}
-			gm, gen := gmethods(gt)
+			gm, gen := gmethods(gt, n)
 			if gen {
 				h.stats["method_sets_mentioning_generics_excluded"]++
 				break
 			}
-			fm := fmethods(ft)
+			fm := fmethods(ft, n)
 			if strings.Join(gm, "\n") != strings.Join(fm, "\n") {
 				h.fail("method set (names, receivers, signatures)", path, name, fm, gm)
 			}
@@ -375,7 +387,7 @@ func (h *H) comparePackage(gp *gotypes.Package, p *types.Package) {
 					h.fail("method sets of T and *T with promotion", path, name, a, b)
 				}
 			}
-			h.sampleType(path+"."+name, gt.Underlying())
+			h.sampleType(path+"."+name, gt.Underlying(), ft.Underlying())
 		}
 	}
 	// nothing extra: every exported name of the converted scope exists in the original
@@ -384,6 +396,30 @@ func (h *H) comparePackage(gp *gotypes.Package, p *types.Package) {
 			h.fail("exported object invented by the conversion", path, name, fkind(fs.Lookup(name)), nil)
 		}
 	}
+}
+
+// sampleType writes (source term, converted term) as a case for the Coq model of Converter.typ
+func (h *H) sampleType(name string, gt gotypes.Type, ft types.Type) {
+	h.stats["types_seen"]++
+	limit := 600
+	if h.a.Thorough() {
+		limit = 6000
+	}
+	if h.ncase >= limit || h.rng.Intn(3) != 0 {
+		return
+	}
+	n := intern{}
+	src := encG(gt, n, 0)
+	dst := "None"
+	if ft != nil {
+		dst = "(Some " + encF(ft, n, 0) + ")"
+	}
+	if len(src) > 20000 {
+		return
+	}
+	h.cw.Add(fmt.Sprintf("mkCase %d%%Z %s %s", h.ncase, src, dst))
+	h.rep.CaseInput(h.ncase, name)
+	h.ncase++
 }
 
 func main() {
@@ -486,9 +522,10 @@ func main() {
 		wd.Beat("Importer.Import " + path)
 		var p *types.Package
 		var err error
+		saved := os.Stdout
 		os.Stdout = devnull
 		e := vh.Catch(func() { p, err = imp.Import(path) })
-		os.Stdout = os.NewFile(1, "stdout")
+		os.Stdout = saved
 		if e != nil || err != nil || p == nil {
 			h.fail("xreflect.Importer.Import failed", path, "", fmt.Sprint(e, err), nil)
 			continue
